@@ -471,8 +471,15 @@ int sim_main_run(const Plan &plan, int life, bool last_life, long gap_s) {
   c08_walk_on = plan.optl("c08_walk", 0); c08_reported = 0;
   kernel_reset();
   __sanitizer_set_death_callback(on_death);
+  // hang detector: CPU time of this process (independent of how loaded the machine is), with a generous wall-clock backstop
   signal(SIGALRM, on_alarm);
-  alarm((unsigned)plan.optl("wall_s", 10));
+  signal(SIGPROF, on_alarm);
+  {
+    struct itimerval it; memset(&it, 0, sizeof it);
+    it.it_value.tv_sec = plan.optl("wall_s", 10);
+    setitimer(ITIMER_PROF, &it, NULL);
+  }
+  alarm((unsigned)plan.optl("wall_s", 10) * 8);
 
   char dirbuf[256];
   snprintf(dirbuf, sizeof dirbuf, "%s/nsim-%08d", scratch_base().c_str(), g_root_pid ? g_root_pid : (int)getpid());
@@ -566,6 +573,7 @@ int sim_main_run(const Plan &plan, int life, bool last_life, long gap_s) {
 // The serving parent never touches the malloc heap between runs (the raw plan text lives in an mmap'd buffer
 // and is parsed in the child), so every child starts from the same heap state whatever ran before it.
 #include <sys/mman.h>
+#include <sys/time.h>
 static char *planbuf; static size_t planlen; static const size_t PLANCAP = (size_t)1 << 30;
 static char errpath[256], childdir[256];
 
